@@ -161,8 +161,8 @@ REGISTRY = {
             "rule": "streamed writers with declared size smaller/equal/larger and declared integrity correct/wrong/other-algorithm/multi-hash, keyed and by address, prior key states absent/present/removed, followed by lookups."},
     "C09": {"flavours": Q3, "suites": [("removals", suite_removals)],
             "rule": "histories mixing writes with remove, remove_hash, remove_fully, clear over small and hostile keys (keys sharing content included), lookups of every known key/address and the listing afterwards."},
-    "C14": {"flavours": Q3, "suites": [("abandon", suite_abandon)],
-            "rule": "writers dropped after creation / after some chunks / after a rejected commit, or left open, interleaved with successful operations; lookups, listing, and the final tree (including tmp/) compared."},
+    "C14": {"flavours": Q3, "suites": [("abandon", suite_abandon), ("cancel", suite_cancel)],
+            "rule": "writers dropped after creation / after some chunks / after a rejected commit, or left open, interleaved with successful operations; plus async writers whose writes are cancelled while the background task is in flight (started, polled once, dropped) before further chunks and commit; lookups, listing, and the final tree (including tmp/) compared."},
     "C16": {"flavours": Q3, "suites": [("dedup", suite_dedup)], "step_suites": [("rewrite_kill", steps.suite_rewrite_kill)],
             "rule": "programs re-writing equal data under the same and different keys through different entry points, flavours and all five algorithms; returned addresses (hashlib/libxxhash), lookups and the final tree (one file per address) compared; plus a strace kill sweep over re-writes of stored bytes (one-shot same / other key, by address, streamed with and without declared size): at every kill point the stored copy is present, byte-identical, and its key still reads it."},
     "C01": {"flavours": Q3, "suites": [("damage_content", suite_damage_content)],
